@@ -114,6 +114,27 @@ func (r *Report) Floor(rule string, got, want int) {
 	}
 }
 
+// failingRules: rules with a violated or undecided obligation that the known-findings file does not list.
+func (r *Report) failingRules() map[string]bool {
+	known := loadKnown()
+	out := map[string]bool{}
+	for _, o := range r.Obls {
+		if o.Verdict != "violation" && o.Verdict != "undecided" {
+			continue
+		}
+		listed := false
+		for _, k := range known {
+			if o.Verdict == "violation" && k.Status == "known" && k.Property == r.Prop && k.Rule == o.Rule && k.Key == o.Instance {
+				listed = true
+			}
+		}
+		if !listed {
+			out[o.Rule] = true
+		}
+	}
+	return out
+}
+
 func verifDir() string {
 	if d := os.Getenv("VERIF_DIR"); d != "" {
 		return d
